@@ -8,9 +8,8 @@ RULE = ("correspondence: Verify / PopVerify of the model vs the real suites on c
         "other keys/messages/suites/tags, sk'*H(m) for sk'=sk+-1, -S, S+T (cofactor torsion T), 2S, single/multi bit flips at every byte "
         "and in the three flag bits, the infinity encoding, random valid G2 encodings; predicates: the real Verify returns True iff the "
         "candidate is byte-for-byte Sign(sk, m) of that suite")
-HYPOTHESES = ["HB1_bilinear_blsOpt", "HB2_card_blsE2", "HT5_codecG2 (G2 codec canonicity: correspondence only so far)"]
-NOT_YET_PROVED = ["verify_iff (accept <-> canonical signature) for all inputs: conditional on HB1/HB2; unconditional theorems cover the "
-                  "rejection gates (C04) and spec equalities (C09)"]
+HYPOTHESES = ["PairingFacts' (C01_ProtoHB2): HB1 = additivity of the reduced pairing in each argument on r-torsion points (needs divisors / Weil reciprocity; not in Mathlib); ND = non-degeneracy against the generator (r.Q = 0 -> e(Q, g1) = 1 -> Q = 0); HB1' = the model's Miller loop + final exponentiation compute e. HB2 (group orders) and HT6 (hash_to_G2 lands in the subgroup, never raises) are PROVED and no longer assumed"]
+NOT_YET_PROVED = ["the three fields of PairingFacts' themselves; cross-suite/cross-tag rejection is stated with the visible hash-inequality hypothesis (random-oracle assumption)"]
 ASSUMPTIONS = ["cross-suite / cross-tag rejection relies on hash_to_curve(m, DST) != hash_to_curve(m', DST') (random-oracle assumption)"]
 nontrivial = nontrivial_default
 CHUNK = 3
